@@ -43,6 +43,9 @@ ALPHABET = [
     ["drop", [src("T", "y")]],
     ["mutate", [["x", ["add", src("T", "x"), lit(1)]]]],  # overwrite x
     ["mutate", [["x", ["mul", Cn("y"), lit(2)]]]],  # re-create the name x with different data
+    ["mutate", [["x", ["mod", src("T", "k"), lit(2)]]]],  # x re-created with ties
+    # the new column named x and the hidden original T.x in one ordering: two different columns with one name
+    ["arrange", [Cn("x"), ["desc", src("T", "x")]]],
     ["rename", [["y", "x"]]],  # onto the name of a hidden column (if x is hidden) - else rejected
     ["arrange", [["desc", src("T", "k")]]],
     ["filter", [["ge", src("T", "k"), lit(2)]]],
